@@ -449,6 +449,7 @@ func (c08) Run(t *testing.T, cs Case, trace bool) *Outcome {
 				return
 			}
 			if !allowed {
+				out.fault("attack:call-outside-declarations:" + kind)
 				if kind == "read" {
 					deniedR++
 				} else {
@@ -474,6 +475,9 @@ func (c08) Run(t *testing.T, cs Case, trace bool) *Outcome {
 				return
 			}
 			// ownership: nobody else's resource changes unless its owner is named explicitly
+			if kind == "write" && rec.PreExists && ownerRel == "foreign" {
+				out.fault("attack:write-to-foreign-resource")
+			}
 			if kind == "write" && rec.PreExists && len(mine) > 0 {
 				named := rec.Att
 				switch call.Op {
